@@ -6,6 +6,7 @@ import SodiumModel.Spec.Poly1305
 import SodiumModel.Spec.Gcm
 import SodiumModel.Spec.Aegis
 import SodiumModel.Model.AegisRef
+import SodiumModel.Model.GcmAesni
 import SodiumModel.Spec.Curve25519
 import SodiumModel.Model.Scalarmult
 namespace Sodium.Driver.C01
@@ -32,6 +33,43 @@ def gcmDec (wantM : Bool) (c tag ad n k : Bytes) : DecResult :=
   match Gcm.decrypt k n ad c tag with
   | some m => ⟨0, c.length, if wantM then some m else none⟩
   | none => ⟨-1, 0, if wantM then some (List.replicate c.length 0xd0) else none⟩
+
+-- BEGIN gcm-aesni
+/-- AES-256-GCM lines are answered by the specification `Spec.Gcm` AND, for messages of at most `gcmModelLimit` bytes,
+    re-computed by the model of the AES-NI / PCLMULQDQ C code (`Model/GcmAesni.lean`: key expansion, precomputed powers of H,
+    GHASH aggregated over 7 / 14 blocks, `required_blocks`, the `0xd0` fill, the return codes).  If the model's result differs from
+    what is about to be printed (ciphertext, tag, return code, output buffer, mlen) the line is prefixed with
+    `MODEL-DISAGREE `, which the correspondence check reports (the C side never prints that). -/
+def gcmModelLimit : Nat := 2048
+
+def gcmFlag (agree : Bool) (line : String) : String := if agree then line else "MODEL-DISAGREE " ++ line
+
+/-- `aead.aes256gcm.enc`: "c mac" (the harness requires rc = 0) -/
+def gcmEncLine (m ad n k : Bytes) : String :=
+  let r := Gcm.encrypt k n ad m
+  let line := s!"{toHex r.1} {toHex r.2}"
+  if m.length ≤ gcmModelLimit then
+    gcmFlag (GcmAesni.crypto_aead_aes256gcm_encrypt_detached m ad n k == .done 0 r.1 r.2) line
+  else line
+
+/-- `aead.aes256gcm.dec`: rc and the content of the `m` buffer (`none` = untouched, `0xd0` fill on a bad tag) -/
+def gcmDecLine (wantM : Bool) (c tag ad n k : Bytes) : String :=
+  let r := gcmDec wantM c tag ad n k
+  let line := decLine c.length r
+  if c.length ≤ gcmModelLimit then
+    gcmFlag (GcmAesni.crypto_aead_aes256gcm_decrypt_detached wantM c tag ad n k == some (r.rc, r.mbuf)) line
+  else line
+
+/-- `aead.aes256gcm.decc` (combined): rc, the content of the `m` buffer and `*mlen_p` -/
+def gcmDecCLine (wantM : Bool) (cm ad n k : Bytes) : String :=
+  let r : DecResult :=
+    if cm.length < 16 then ⟨-1, 0, none⟩
+    else gcmDec wantM (cm.take (cm.length - 16)) (cm.drop (cm.length - 16)) ad n k
+  let line := decLine (cm.length - 16) r
+  if cm.length ≤ gcmModelLimit + 16 then
+    gcmFlag (GcmAesni.crypto_aead_aes256gcm_decrypt wantM cm ad n k == some (r.rc, r.mbuf, r.mlen)) line
+  else line
+-- END gcm-aesni
 
 /-- AEGIS goes through the C-structured model `Model/AegisRef.lean` over the SoftAesBlock backend
     (software AES round of softaes.c); `Properties/C01Aegis.lean` proves it equal to `Spec.Aegis`. -/
@@ -64,8 +102,10 @@ def handle (op : String) (args : List String) : Option String :=
     let r := encryptDetached pIetf .ietf (← ofHex m) (← ofHex ad) (← ofHex n) (← ofHex k); some s!"{toHex r.1} {toHex r.2}"
   | "aead.xchachapoly.enc", [m, ad, n, k] => do
     let r := xEncryptDetached pIetf (← ofHex m) (← ofHex ad) (← ofHex n) (← ofHex k); some s!"{toHex r.1} {toHex r.2}"
+  -- BEGIN gcm-aesni
   | "aead.aes256gcm.enc", [m, ad, n, k] => do
-    let r := Gcm.encrypt (← ofHex k) (← ofHex n) (← ofHex ad) (← ofHex m); some s!"{toHex r.1} {toHex r.2}"
+    some (gcmEncLine (← ofHex m) (← ofHex ad) (← ofHex n) (← ofHex k))
+  -- END gcm-aesni
   | "aead.aegis128l.enc", [m, ad, n, k] => do
     some (aegisEnc false (← ofHex m) (← ofHex ad) (← ofHex n) (← ofHex k))
   | "aead.aegis256.enc", [m, ad, n, k] => do
@@ -76,8 +116,10 @@ def handle (op : String) (args : List String) : Option String :=
     let c ← ofHex c; some (decLine c.length (decryptDetached pIetf .ietf (w == "1") c (← ofHex mac) (← ofHex ad) (← ofHex n) (← ofHex k)))
   | "aead.xchachapoly.dec", [w, c, mac, ad, n, k] => do
     let c ← ofHex c; some (decLine c.length (xDecryptDetached pIetf (w == "1") c (← ofHex mac) (← ofHex ad) (← ofHex n) (← ofHex k)))
+  -- BEGIN gcm-aesni
   | "aead.aes256gcm.dec", [w, c, mac, ad, n, k] => do
-    let c ← ofHex c; some (decLine c.length (gcmDec (w == "1") c (← ofHex mac) (← ofHex ad) (← ofHex n) (← ofHex k)))
+    some (gcmDecLine (w == "1") (← ofHex c) (← ofHex mac) (← ofHex ad) (← ofHex n) (← ofHex k))
+  -- END gcm-aesni
   | "aead.aegis128l.dec", [w, c, mac, ad, n, k] => do
     let c ← ofHex c; some (decLine c.length (aegisDec false (w == "1") c (← ofHex mac) (← ofHex ad) (← ofHex n) (← ofHex k)))
   | "aead.aegis256.dec", [w, c, mac, ad, n, k] => do
@@ -88,10 +130,10 @@ def handle (op : String) (args : List String) : Option String :=
     let cm ← ofHex cm; some (decLine (cm.length - 16) (decrypt pIetf .ietf (w == "1") cm (← ofHex ad) (← ofHex n) (← ofHex k)))
   | "aead.xchachapoly.decc", [w, cm, ad, n, k] => do
     let cm ← ofHex cm; some (decLine (cm.length - 16) (xDecrypt pIetf (w == "1") cm (← ofHex ad) (← ofHex n) (← ofHex k)))
+  -- BEGIN gcm-aesni
   | "aead.aes256gcm.decc", [w, cm, ad, n, k] => do
-    let cm ← ofHex cm
-    if cm.length < 16 then some (decLine 0 ⟨-1, 0, none⟩) else
-    some (decLine (cm.length - 16) (gcmDec (w == "1") (cm.take (cm.length - 16)) (cm.drop (cm.length - 16)) (← ofHex ad) (← ofHex n) (← ofHex k)))
+    some (gcmDecCLine (w == "1") (← ofHex cm) (← ofHex ad) (← ofHex n) (← ofHex k))
+  -- END gcm-aesni
   | "aead.aegis128l.decc", [w, cm, ad, n, k] => do
     let cm ← ofHex cm
     some (decLine (cm.length - 32) (aegisDecC false (w == "1") cm (← ofHex ad) (← ofHex n) (← ofHex k)))
